@@ -167,6 +167,8 @@ def family(t, sd):
                         m = {'vars': [['x', gen.D('Int', 0, 2)]], 'obj': {'dir': 'min', 'e': gen.num(0.5)}, 'cons': [gen.row(gen.var('x'), '>=', gen.num(1)), con]}
                     if (ci + objkind) % (1 if t == 'thorough' else 2) == 0:
                         items.append({'model': m, 'style': styles[ci % 3], 'allow_empty': True})
+    for im, it in enumerate(gen.diverging_family(bounded=True)):
+        items.append({'model': it['model'], 'style': styles[im % 3]})
     out = []
     for k_, it in enumerate(items):
         m = it['model']
